@@ -61,6 +61,15 @@ fn main() {
                 _ => usage(),
             }
         }
+        "min" => {
+            let prop = arg_val(&args, "--property").unwrap_or_else(|| usage());
+            let world = arg_val(&args, "--world").unwrap_or_else(|| "blocking".into());
+            let ty = arg_val(&args, "--type").and_then(|s| s.parse::<usize>().ok()).unwrap_or(0);
+            let seed = arg_val(&args, "--seed").and_then(|s| s.parse::<u64>().ok()).unwrap_or(1);
+            let backend = arg_val(&args, "--backend").unwrap_or_else(|| "coro".into());
+            let out = arg_val(&args, "--out").unwrap_or_else(|| "/verif/replays/min.json".into());
+            batch::minimise_seed(&prop, &world, ty, seed, &backend, &out)
+        }
         "one" => {
             let prop = arg_val(&args, "--property").unwrap_or_else(|| usage());
             let world = arg_val(&args, "--world").unwrap_or_else(|| "blocking".into());
